@@ -14,6 +14,7 @@ VERUS_UNITS = {
     'search_cw': 'charwise.rs child_index_unchecked / next_state_id_unchecked / next_state_id_leftmost_unchecked, CodeMapper::get, State accessors',
     'utf8': 'charwise/iter.rs CharWithEndOffsetIterator::next against the UTF-8 table: offsets, scalar values, unwrap_unchecked/from_u32_unchecked preconditions',
     'iter_cw': 'charwise/iter.rs next() of FindIterator, FindOverlappingIterator, FindOverlappingNoSuffixIterator against spec streams over the char-wise double array; laziness',
+    'lm_cw': 'charwise/iter.rs LestmostFindIterator::next (str-based) and charwise.rs leftmost_find_iter: refinement of the char-level leftmost spec stream cwl_stream over the double array; the str::get_unchecked(pos..) safety condition (pos is a char boundary) is a proved precondition of the R24 wrapper at every call; every reported end offset is a char boundary inside the haystack; pos moves forward; index safety of states/outputs; termination; documented match-kind panic. Trusted: three axioms about UTF-8 boundaries of a str (ghost_str.rs)',
     'ctor_bw': 'bytewise.rs all seven find_*/leftmost constructors, U8SliceIterator::{new,next} (next checked against vstd prophetic iterator laws with remaining() == unread slice bytes), MatchKind::{is_standard,is_leftmost}: documented match-kind panics, iterator invariants established from the automaton invariant, slice entry == iterator entry',
     'ctor_cw': 'charwise.rs find_*_iter_from_iter constructors + CharWithEndOffsetIterator::new: documented match-kind panics, establish the iterator invariants from the automaton invariant',
     'search_bw': 'bytewise.rs child_index_unchecked / next_state_id_unchecked / next_state_id_leftmost_unchecked, State accessors, intpack getters',
@@ -48,22 +49,22 @@ PROPS = {
     'C02': dict(verus=['search_bw', 'iter_bw', 'build_bw', 'link_bw', 'wrap_bw', 'search_cw', 'utf8', 'iter_cw', 'build_cw', 'link_cw'], kani=[], bounded=True,
                 chain='FindIterator::next refines find_stream incl. restart at root (P); rest as C01',
                 assumed=[NFA_ASSUMED, DA_ASSUMED, AC_ASSUMED]),
-    'C03': dict(verus=['search_bw', 'iter_bw', 'build_bw', 'link_bw', 'wrap_bw', 'search_cw', 'build_cw', 'link_cw'], kani=[], bounded=True,
-                chain='LestmostFindIterator::next refines lm_stream (P, byte-wise) over an array proved to encode the NFA (P: build_bw, link_bw; char-wise build_cw, link_cw); dead-fail construction in build_fails_leftmost and the char-wise str-based leftmost iterator: B',
+    'C03': dict(verus=['search_bw', 'iter_bw', 'build_bw', 'link_bw', 'wrap_bw', 'search_cw', 'build_cw', 'link_cw', 'lm_cw'], kani=[], bounded=True,
+                chain='LestmostFindIterator::next refines lm_stream (P, byte-wise) over an array proved to encode the NFA (P: build_bw, link_bw; char-wise build_cw, link_cw); char-wise str-based LestmostFindIterator::next refines cwl_stream (P: lm_cw); dead-fail construction in build_fails_leftmost: B',
                 assumed=[NFA_ASSUMED, DA_ASSUMED, AC_ASSUMED]),
-    'C04': dict(verus=['search_bw', 'iter_bw', 'build_bw', 'link_bw', 'wrap_bw', 'search_cw', 'build_cw', 'link_cw'], kani=[], bounded=True,
+    'C04': dict(verus=['search_bw', 'iter_bw', 'build_bw', 'link_bw', 'wrap_bw', 'search_cw', 'build_cw', 'link_cw', 'lm_cw'], kani=[], bounded=True,
                 chain='as C03; shadowing at insertion (B)',
                 assumed=[NFA_ASSUMED, DA_ASSUMED, AC_ASSUMED]),
     'C05': dict(verus=['search_bw', 'iter_bw', 'build_bw', 'link_bw', 'wrap_bw', 'search_cw', 'utf8', 'iter_cw', 'build_cw', 'link_cw'], kani=[], bounded=True,
                 chain='FindOverlappingNoSuffixIterator::next refines nosuf_stream with persistent state (P); rest as C01',
                 assumed=[NFA_ASSUMED, DA_ASSUMED, AC_ASSUMED]),
-    'C06': dict(verus=['search_bw', 'iter_bw', 'build_bw', 'link_bw', 'wrap_bw', 'search_cw', 'utf8', 'iter_cw', 'build_cw', 'link_cw', 'ser', 'nfa_add'], kani=['num_bytes_labels'], bounded=True,
+    'C06': dict(verus=['search_bw', 'iter_bw', 'build_bw', 'link_bw', 'wrap_bw', 'search_cw', 'utf8', 'iter_cw', 'build_cw', 'link_cw', 'ser', 'nfa_add', 'lm_cw'], kani=['num_bytes_labels'], bounded=True,
                 chain='every returned Match is mk_match(outputs[opos-1], end) (P); outputs[j] == (value_i, |p_i|) (B)',
                 assumed=[NFA_ASSUMED, DA_ASSUMED]),
-    'C07': dict(verus=['search_bw', 'iter_bw', 'build_bw', 'link_bw', 'wrap_bw', 'helper', 'build_cw', 'link_cw', 'search_cw', 'utf8', 'iter_cw', 'ctor_bw', 'ctor_cw'], kani=['from_u32', 'utf8_decoder_two_chars'], bounded=True,
+    'C07': dict(verus=['search_bw', 'iter_bw', 'build_bw', 'link_bw', 'wrap_bw', 'helper', 'build_cw', 'link_cw', 'search_cw', 'utf8', 'iter_cw', 'ctor_bw', 'ctor_cw', 'lm_cw'], kani=['from_u32', 'utf8_decoder_two_chars'], bounded=True,
                 chain='every get_unchecked / unwrap_unchecked / from_u32_unchecked in search code and iterators is an index or value obligation under bw_wf / cw_wf (P); the build functions establish da_safe and encodes (P: build_bw, build_cw) and encodes => wf (P: link_bw, link_cw); NFA-stage contract (B)',
                 assumed=[NFA_ASSUMED, DA_ASSUMED]),
-    'C08': dict(verus=['search_cw', 'utf8', 'iter_cw', 'build_cw', 'link_cw'], kani=['num_bytes_labels', 'utf8_decoder_two_chars'], bounded=True, chain='char-wise iterators refine streams over their array with decoder end offsets (P: iter_cw, utf8; offsets fall on character boundaries; unmapped characters go to the root: search_cw); label byte lengths and decoder (K); equality of the two streams rests on AC correctness (B); char-wise leftmost iterator (str-based): B', assumed=[AC_ASSUMED]),
+    'C08': dict(verus=['search_cw', 'utf8', 'iter_cw', 'build_cw', 'link_cw', 'lm_cw'], kani=['num_bytes_labels', 'utf8_decoder_two_chars'], bounded=True, chain='char-wise iterators refine streams over their array with decoder end offsets (P: iter_cw, utf8; offsets fall on character boundaries; unmapped characters go to the root: search_cw); label byte lengths and decoder (K); char-wise leftmost iterator (str-based): end offsets are char boundaries, refinement of its spec stream (P: lm_cw); equality of the byte-wise and char-wise streams rests on AC correctness (B)', assumed=[AC_ASSUMED]),
     'C09': dict(verus=['ser'], kani=KANI_SER + ['intpack_u24nu8'], bounded=True,
                 chain='byte-wise: deserialize_unchecked(serialize(a) ++ t) == (a, t) and re-serialisation reproduces the bytes (P: ser, for every V satisfying the trait contract) <- primitive LE impls (K, 13 harnesses); char-wise automaton and CodeMapper: B',
                 assumed=['user-defined V: satisfies the Serializable trait contract (ser/deser inverse, fixed width < 256 MiB)', 'derived PartialEq is structural']),
@@ -75,7 +76,7 @@ PROPS = {
                 assumed=[NFA_ASSUMED, DA_ASSUMED]),
     'C12': dict(verus=['iter_bw', 'ctor_bw', 'utf8', 'iter_cw', 'ctor_cw'], kani=['utf8_decoder_two_chars'], bounded=True,
                 chain='laziness postconditions of the three standard iterators, both variants (P): m.end == bytes pulled, source drained on None, pulls only via Enumerate::next; decoder pulls exactly the bytes of one character (P+K)', assumed=['byte-wise: find_iter(h) is find_iter_from_iter over U8SliceIterator, whose remaining() == h (P: ctor_bw); char-wise str entry points over StrIterator: B', 'caller-supplied iterators obey vstd prophetic iterator laws (finite, deterministic)']),
-    'C13': dict(verus=['search_bw', 'iter_bw', 'build_bw', 'link_bw', 'wrap_bw', 'search_cw', 'utf8', 'iter_cw', 'build_cw', 'link_cw', 'ctor_bw', 'ctor_cw'], kani=[], bounded=True,
+    'C13': dict(verus=['search_bw', 'iter_bw', 'build_bw', 'link_bw', 'wrap_bw', 'search_cw', 'utf8', 'iter_cw', 'build_cw', 'link_cw', 'ctor_bw', 'ctor_cw', 'lm_cw'], kani=[], bounded=True,
                 chain='decreases rank in the transition loops, decreases |rest| in scanning loops (P); the ranking exists: NFA depth through idmap (P: link_bw, link_cw) given fail links point to shallower states (nfa_links, B); 2n bound: B',
                 assumed=[NFA_ASSUMED, DA_ASSUMED]),
     'C15': dict(verus=['nfa_add', 'wrap_bw'], kani=[], bounded=True,
